@@ -369,6 +369,9 @@ def chain_case(run: Run, model, df, kind, algo, n_iter, nb=None, frac_=None, see
     from leaspy.io.data import Dataset
     inp = dict(kind=kind, algo=algo, n_iter=n_iter, n_burn_in_iter=nb, n_burn_in_iter_frac=frac_, seed=seed, cohort=tag, n_ind=int(df.ID.nunique()))
     kw = dict(n_iter=n_iter, n_burn_in_iter=nb, n_burn_in_iter_frac=frac_)
+    if frac_ == "default":
+        # an explicit count with the fraction LEFT at its default (0.5): the documented priority is the explicit count
+        del kw["n_burn_in_iter_frac"]
     if ann is not None:
         inp["schedule"] = sched
         inp["annealing"] = dict(ann)
@@ -1170,6 +1173,9 @@ def check(run: Run, gen_ok=True, model_ok=True):
                     grid.append((n_iter, nb, None))
             for fr in (0.0, 0.1, 0.29, 0.5, 0.75, 0.9, 1.0):
                 grid.append((n_iter, None, fr))
+            if n_iter >= 5:
+                grid.append((n_iter, 1, "default"))
+                grid.append((n_iter, n_iter - 1, "default"))
         grid = list(dict.fromkeys(grid))
         for j, (n_iter, nb, fr) in enumerate(grid):
             algo = "mode_posterior" if j % 2 else "mean_posterior"
